@@ -131,10 +131,10 @@ static int run_c15(uint64_t seed, long from, long to) {
         sigs.insert(sig);
         if (sample.empty() && len > 20) sample = h.str();
     }
-    char buf[400];
-    snprintf(buf, sizeof buf, "{\"histories\":%ld,\"ops\":%ld,\"reads\":%ld,\"short_reads\":%ld,\"drops\":%ld,\"whole_containers\":%ld,\"seeks\":%ld,\"writes_straddling_containers\":%ld,\"distinct\":%zu,\"samples\":[%s]}",
-             hist, ops, reads, shortreads, drops, wholes, seeks, straddle, sigs.size(), hc::jstr(sample).c_str());
-    hc::stat(buf);
+    std::ostringstream o;
+    o << "{\"histories\":" << hist << ",\"ops\":" << ops << ",\"reads\":" << reads << ",\"short_reads\":" << shortreads << ",\"drops\":" << drops << ",\"whole_containers\":" << wholes
+      << ",\"seeks\":" << seeks << ",\"writes_straddling_containers\":" << straddle << ",\"distinct\":" << sigs.size() << ",\"samples\":[" << hc::jstr(sample) << "]}";
+    hc::stat(o.str());
     return 0;
 }
 
@@ -207,10 +207,10 @@ static int run_c16(uint64_t seed, long from, long to) {
         hist++; sigs.insert(sig);
         if (sample.empty() && h.str().size() > 40) sample = h.str();
     }
-    char buf[400];
-    snprintf(buf, sizeof buf, "{\"histories\":%ld,\"ops\":%ld,\"delivered\":%ld,\"null_reads\":%ld,\"objects_left_for_destructor\":%ld,\"histories_with_abort\":%ld,\"distinct\":%zu,\"samples\":[%s]}",
-             hist, ops, delivered, nulls, left, aborted_hist, sigs.size(), hc::jstr(sample).c_str());
-    hc::stat(buf);
+    std::ostringstream o;
+    o << "{\"histories\":" << hist << ",\"ops\":" << ops << ",\"delivered\":" << delivered << ",\"null_reads\":" << nulls << ",\"objects_left_for_destructor\":" << left
+      << ",\"histories_with_abort\":" << aborted_hist << ",\"distinct\":" << sigs.size() << ",\"samples\":[" << hc::jstr(sample) << "]}";
+    hc::stat(o.str());
     return 0;
 }
 
